@@ -22,6 +22,7 @@ import (
 	"encoding/json"
 	"errors"
 	"fmt"
+	"runtime/debug"
 	"sort"
 	"strconv"
 	"strings"
@@ -1822,7 +1823,34 @@ func (s *verifSim) plantOp() {
 	c.Count("canaries-planted")
 }
 
+// verifPanicSite renders where a panic came from without argument values
+// (addresses would make the event log differ between a run and its replay).
+func verifPanicSite() string {
+	var fns []string
+	for _, l := range strings.Split(string(debug.Stack()), "\n") {
+		if !strings.HasPrefix(l, "github.com/snapcore/snapd/") || strings.Contains(l, "verif") {
+			continue
+		}
+		if i := strings.LastIndex(l, "("); i > 0 {
+			l = l[:i]
+		}
+		fns = append(fns, strings.TrimPrefix(l, "github.com/snapcore/snapd/"))
+		if len(fns) == 6 {
+			break
+		}
+	}
+	return strings.Join(fns, " < ")
+}
+
 func verifRunC30(c *verifsim.Ctx) {
+	defer func() {
+		if r := recover(); r != nil {
+			if _, ok := r.(verifsim.HarnessError); ok {
+				panic(r)
+			}
+			c.Violate("C30/panic", "panic in snapd code: %v @ %s", r, verifPanicSite())
+		}
+	}()
 	s := &verifSim{c: c, assert: map[string]*asserts.Registry{}, tokOwner: map[string]int{}}
 	s.mode = c.Draw("mode", 3)
 	s.faults = c.Draw("faults", 4) != 0
